@@ -74,7 +74,7 @@ Proof. exact marshaler_output_native_refuted. Qed.
 Print Assumptions C04_marshaler_output_native_refuted.
 
 (* ---- C04_wellformed for the proved fragment (scalars, strings, pointers, slices, arrays, []byte, structs without
-   options), every option word that leaves nil slices as null: Marshal stops with one strict RFC 8259 value, nested no
+   options), every option word (under NoNullSliceOrMap a nil slice is `[]`, one level deeper than the state stack it needs): Marshal stops with one strict RFC 8259 value, nested no
    deeper than the state stack it used, and sonic's own validator (property C02's model of alg.Valid) accepts it.
    The statement needs no hypothesis on the reference encoder: it is total on typed values of the fragment. *)
 From SV.Enc Require Import StdEnc TyLemmas Frag EncProofs WellFormed Finish Total WfMarshal.
@@ -82,30 +82,30 @@ From SV.Json Require Grammar Fsm Wrappers.
 From Coq Require Import Lia.
 
 Theorem C04_wellformed_partial_jit : forall e co flg t v prog,
-  (0 < MaxInlineDepth co)%nat -> EncOnlyOmitNull co = false -> has_opts flg BitNoNullSliceOrMap = false ->
+  (0 < MaxInlineDepth co)%nat -> EncOnlyOmitNull co = false ->
   frag e t -> compilable e co t -> has_type (fok_wf prims_jit) t v ->
   compile e co t (has_opts flg BitPointerValue) = COk prog -> (need v <= 4096)%nat ->
-  wf_outcome (encode prims_jit e co flg (Some (t, v))) v.
+  wf_outcome (encode prims_jit e co flg (Some (t, v))) (need v + nil_depth (has_opts flg BitNoNullSliceOrMap)).
 Proof. exact marshal_wellformed_jit. Qed.
 Print Assumptions C04_wellformed_partial_jit.
 
 Theorem C04_wellformed_partial_vm : forall e co flg t v prog,
-  (0 < MaxInlineDepth co)%nat -> EncOnlyOmitNull co = false -> has_opts flg BitNoNullSliceOrMap = false ->
+  (0 < MaxInlineDepth co)%nat -> EncOnlyOmitNull co = false ->
   frag e t -> compilable e co t -> has_type (fok_wf prims_vm) t v ->
   compile e co t (has_opts flg BitPointerValue) = COk prog -> (need v <= 4096)%nat ->
-  wf_outcome (encode prims_vm e co flg (Some (t, v))) v.
+  wf_outcome (encode prims_vm e co flg (Some (t, v))) (need v + nil_depth (has_opts flg BitNoNullSliceOrMap)).
 Proof. exact marshal_wellformed_vm. Qed.
 Print Assumptions C04_wellformed_partial_vm.
 
 (* the pieces: the reference bytes are strict JSON; the reference is total; encodeFinish keeps strict JSON strict *)
-Theorem C04_reference_wellformed : forall e t, frag e t -> forall fuel v addr res, has_type fwf t v ->
-  std_enc e Qraw fuel t v addr false = SOk res -> Grammar.strict (need v) res.
+Theorem C04_reference_wellformed : forall e nn t, frag e t -> forall fuel v addr res, has_type fwf t v ->
+  std_enc e Qraw nn fuel t v addr false = SOk res -> Grammar.strict (need v + nil_depth nn) res.
 Proof. exact wellformed_frag. Qed.
 
-Theorem C04_reference_total : forall e (F : kind -> N -> option bytes -> Prop),
+Theorem C04_reference_total : forall e nn (F : kind -> N -> option bytes -> Prop),
   (forall k b txt, F k b txt -> exists t, txt = Some t) ->
   forall t, frag e t -> forall v fuel addr, has_type F t v -> (need v < fuel)%nat ->
-  exists res, std_enc e Qraw fuel t v addr false = SOk res.
+  exists res, std_enc e Qraw nn fuel t v addr false = SOk res.
 Proof. exact std_total. Qed.
 
 Theorem C04_finish_preserves : forall flags d v, Grammar.strict d v -> Grammar.strict d (encode_finish flags v).
@@ -144,10 +144,89 @@ Proof.
     - destruct k; discriminate Hk. }
   assert (He : encode prims_jit [] default_copts std_flags (Some (c04_ex_ty, c04_ex_val)) = Done c04_ex_out) by (vm_compute; reflexivity).
   split; [exact Hf|split; [exact Hc|split; [exact Hv|split; [exact He|]]]].
-  assert (Hw : wf_outcome (encode prims_jit [] default_copts std_flags (Some (c04_ex_ty, c04_ex_val))) c04_ex_val).
+  assert (Hw : wf_outcome (encode prims_jit [] default_copts std_flags (Some (c04_ex_ty, c04_ex_val))) (need c04_ex_val + nil_depth (has_opts std_flags BitNoNullSliceOrMap))).
   { destruct (compile [] default_copts c04_ex_ty (has_opts std_flags BitPointerValue)) as [prog|] eqn:Ec; [|vm_compute in Ec; discriminate Ec].
     eapply C04_wellformed_partial_jit; try eassumption; try reflexivity; cbn; lia. }
   rewrite He in Hw. destruct Hw as [(out & Ho & _ & Hval)|Ho]; [|discriminate Ho].
   injection Ho as <-. apply Hval. cbn. lia.
 Qed.
 Print Assumptions C04_wellformed_nonvacuous.
+
+(* ---- the documented effect of encoder switches on the machine (for property C18: these are the statements about
+   EncodeNullForInfOrNan; NoNullSliceOrMap and SortMapKeys need the fragment with that bit / with maps).
+   (1) on typed values of the fragment (all floats finite) execution gives the bytes of the reference encoder whatever the
+       other option bits are: switching on any bit other than NoNullSliceOrMap (and the internal pointer-value bit) changes
+       nothing - in particular EncodeNullForInfOrNan, SortMapKeys (no maps in the fragment), the Marshaler switches;
+   (2) on a NaN/Inf float64 the bit turns exactly the failure (C04_errors_nan_toplevel) into `null`. *)
+From SV.Enc Require Import Switches.
+
+Theorem C04_switch_irrelevant_jit : forall e co b flg t v prog,
+  (0 < MaxInlineDepth co)%nat -> EncOnlyOmitNull co = false ->
+  b <> BitNoNullSliceOrMap -> b <> BitPointerValue ->
+  frag e t -> compilable e co t -> has_type (fok prims_jit) t v ->
+  compile e co t (has_opts flg BitPointerValue) = COk prog -> (need v <= 4096)%nat ->
+  exists res, done_or_fuel (exec_top prims_jit e co flg (Some (t, v))) res /\
+              done_or_fuel (exec_top prims_jit e co (set_bit flg b) (Some (t, v))) res.
+Proof.
+  intros e co b flg t v prog Hin Hnu Hb1 Hb2 Hf Hc Hv Hp Hn.
+  eapply (switch_irrelevant prims_jit e co jit_i64 jit_u64); try eassumption; try reflexivity; try discriminate.
+  change (p_stack prims_jit) with 4096%N. lia.
+Qed.
+Print Assumptions C04_switch_irrelevant_jit.
+
+Theorem C04_switch_irrelevant_vm : forall e co b flg t v prog,
+  (0 < MaxInlineDepth co)%nat -> EncOnlyOmitNull co = false ->
+  b <> BitNoNullSliceOrMap -> b <> BitPointerValue ->
+  frag e t -> compilable e co t -> has_type (fok prims_vm) t v ->
+  compile e co t (has_opts flg BitPointerValue) = COk prog -> (need v <= 4096)%nat ->
+  exists res, done_or_fuel (exec_top prims_vm e co flg (Some (t, v))) res /\
+              done_or_fuel (exec_top prims_vm e co (set_bit flg b) (Some (t, v))) res.
+Proof.
+  intros e co b flg t v prog Hin Hnu Hb1 Hb2 Hf Hc Hv Hp Hn.
+  eapply (switch_irrelevant prims_vm e co); try eassumption; try reflexivity; try discriminate.
+  change (p_stack prims_vm) with 4096%N. lia.
+Qed.
+Print Assumptions C04_switch_irrelevant_vm.
+
+(* NoNullSliceOrMap: execution gives the reference bytes computed with that bit, and the reference uses the bit only to print a
+   nil slice as `[]` (a nil map as `{}`) instead of `null` (StdEnc.std_enc; C04_switch_nonull_reference) *)
+Theorem C04_switch_nonull_jit : forall e co flg t v prog,
+  (0 < MaxInlineDepth co)%nat -> EncOnlyOmitNull co = false ->
+  frag e t -> compilable e co t -> has_type (fok prims_jit) t v ->
+  compile e co t (has_opts flg BitPointerValue) = COk prog -> (need v <= 4096)%nat ->
+  exists res, std_marshal e Qraw (has_opts flg BitNoNullSliceOrMap) (S (need v)) (Some (t, v)) = SOk res /\
+              done_or_fuel (exec_top prims_jit e co flg (Some (t, v))) res.
+Proof.
+  intros e co flg t v prog Hin Hnu Hf Hc Hv Hp Hn.
+  eapply (exec_top_frag prims_jit e co jit_i64 jit_u64); try eassumption; try reflexivity; try discriminate.
+  change (p_stack prims_jit) with 4096%N. lia.
+Qed.
+Print Assumptions C04_switch_nonull_jit.
+
+Theorem C04_switch_nonull_vm : forall e co flg t v prog,
+  (0 < MaxInlineDepth co)%nat -> EncOnlyOmitNull co = false ->
+  frag e t -> compilable e co t -> has_type (fok prims_vm) t v ->
+  compile e co t (has_opts flg BitPointerValue) = COk prog -> (need v <= 4096)%nat ->
+  exists res, std_marshal e Qraw (has_opts flg BitNoNullSliceOrMap) (S (need v)) (Some (t, v)) = SOk res /\
+              done_or_fuel (exec_top prims_vm e co flg (Some (t, v))) res.
+Proof.
+  intros e co flg t v prog Hin Hnu Hf Hc Hv Hp Hn.
+  eapply (exec_top_frag prims_vm e co); try eassumption; try reflexivity; try discriminate.
+  change (p_stack prims_vm) with 4096%N. lia.
+Qed.
+Print Assumptions C04_switch_nonull_vm.
+
+Example C04_switch_nonull_reference : forall e el,
+  std_enc e Qraw true 1 (TSlice el) (VSlice None) false false = SOk [91%N; 93%N] /\
+  std_enc e Qraw false 1 (TSlice el) (VSlice None) false false = SOk s_null.
+Proof. exact std_enc_nn_nil. Qed.
+
+Theorem C04_switch_nan_null : forall P e co flags bits txt, is_nan_inf64 bits = true -> has_opts flags (b_f64 P) = true ->
+  encode P e co flags (Some (TPrim KFloat64, VFloat bits txt)) = Done (encode_finish flags s_null).
+Proof. exact encode_nan64_null. Qed.
+Print Assumptions C04_switch_nan_null.
+
+Example C04_switch_bits : b_f64 prims_jit = BitEncodeNullForInfOrNan /\ b_f64 prims_vm = BitEncodeNullForInfOrNan /\
+  BitEncodeNullForInfOrNan <> BitNoNullSliceOrMap /\ BitEncodeNullForInfOrNan <> BitPointerValue /\
+  BitSortMapKeys <> BitNoNullSliceOrMap /\ BitSortMapKeys <> BitPointerValue.
+Proof. repeat split; discriminate. Qed.
